@@ -15,7 +15,7 @@ TYPES = {
     "semantic/type_definition/vftable.rs": ["TypeVftable"],
     "semantic/type_registry.rs": ["TypeRegistry"],
     "semantic/module.rs": ["Module"],
-    "semantic/semantic_state.rs": ["SemanticState"],
+    "semantic/semantic_state.rs": ["SemanticState", "ResolvedSemanticState"],
 }
 
 
